@@ -130,6 +130,25 @@ class Ctx:
         if sample is not None and len(self.samples) < 4 and (nontrivial or not self.samples):
             self.samples.append(jsonable(sample))
 
+    def case_guard(self, workload: str):
+        """Context manager: an exception escaping one workload case is recorded (case_exceptions) and the workload goes on."""
+        ctx = self
+
+        class _G:
+            def __enter__(self_g):
+                return self_g
+
+            def __exit__(self_g, et, ev, tb):
+                if et is None or not issubclass(et, Exception):
+                    return False
+                ctx.counters[f"{workload}.case_exceptions"] += 1
+                lst = ctx.notes.setdefault("case_exception_samples", [])
+                if len(lst) < 3:
+                    lst.append(f"{workload}: {et.__name__}: {str(ev)[:200]}")
+                return True
+
+        return _G()
+
     def count(self, key: str, n: int = 1) -> None:
         self.counters[key] += n
 
